@@ -186,6 +186,55 @@ pub fn gen_lists(rng: &mut Rng) -> AG {
     AG { terms, rules }
 }
 
+/// "Ambiguous prefix, nullable tail" family (C03): productions of 4-6 symbols whose first symbols can split the same
+/// stretch in several ways and whose last 2-3 symbols are nullable - several right-nulled solutions of one production
+/// share their last edge and differ in the earlier children.
+pub fn gen_amb_tails(rng: &mut Rng) -> AG {
+    let mut terms: Vec<Term> = vec![];
+    let t = |terms: &mut Vec<Term>| {
+        terms.push(lit_term(terms.len()));
+        Sym::T(terms.len() - 1)
+    };
+    let alt = |syms: Vec<Sym>| Alt { syms, meta: Meta::default() };
+    let mut rules: Vec<Rule> = vec![Rule { name: "S".into(), alts: vec![], meta: Meta::default() }];
+    let shared = t(&mut terms); // the letter the splitters compete for
+    let nsplit = rng.range(2, 3);
+    let ntail = rng.range(2, 3);
+    let mut body = vec![];
+    if rng.chance(0.4) {
+        body.push(t(&mut terms));
+    }
+    for k in 0..nsplit {
+        let me = rules.len();
+        let mut alts = vec![alt(vec![shared]), alt(vec![shared, shared])];
+        if rng.chance(0.3) {
+            alts.push(alt(vec![shared, shared, shared]));
+        }
+        if rng.chance(0.2) {
+            alts.push(alt(vec![Sym::N(me), shared]));
+        }
+        rules.push(Rule { name: format!("P{}", k), alts, meta: Meta::default() });
+        body.push(Sym::N(me));
+    }
+    for k in 0..ntail {
+        let me = rules.len();
+        let own = t(&mut terms);
+        let alts = match rng.below(3) {
+            0 => vec![alt(vec![own]), alt(vec![])],
+            1 => vec![alt(vec![]), alt(vec![own, own])],
+            _ => vec![alt(vec![own]), alt(vec![]), alt(vec![own, shared])],
+        };
+        rules.push(Rule { name: format!("Q{}", k), alts, meta: Meta::default() });
+        body.push(Sym::N(me));
+    }
+    rules[0].alts.push(alt(body.clone()));
+    if rng.chance(0.5) {
+        // the same production again inside a list, so that its reductions meet existing heads
+        rules[0].alts.push(alt(vec![Sym::N(0), Sym::N(0)]));
+    }
+    AG { terms, rules }
+}
+
 /// "Context" family: a few shared non-terminals (unit chains down to a nullable or
 /// non-nullable leaf) used under several prefixes and followers. Finite languages whose
 /// LALR automata need look-aheads to travel through merges and several closure hops —
